@@ -114,6 +114,15 @@ func genTasks(rng *hutil.Rng, prof string) []TaskCfg {
 	default:
 		nt = rng.Pick([]int{1, 8, 4, 2})
 	}
+	if prof == "graph" && rng.Chance(1, 8) {
+		// a shape that punishes a ranking which is not the order of removal: a chain, a root whose name sorts last, and a diamond below both
+		mk := func(n int, deps ...int) TaskCfg {
+			return TaskCfg{Name: n, Allow: false, Empty: rng.Chance(1, 10), Script: rng.Intn(4), Env: rng.Intn(3), Deps: append([]int{}, deps...)}
+		}
+		// (chain 0 -> 1 -> 5; root 7 is removed last; 3 needs 5 and 7; 4 needs 5 and 3: with a wrong ranking 5 is added to the graph after
+		// both 3 and 4, and the search from 5 meets 4 twice)
+		return []TaskCfg{mk(0), mk(1, 0), mk(3, 5, 7), mk(4, 5, 3), mk(5, 1), mk(7)}
+	}
 	ts := make([]TaskCfg, nt)
 	// task numbers are a random injection into 0..7 so that name order and dependency order are unrelated
 	perm := []int{0, 1, 2, 3, 4, 5, 6, 7}
